@@ -89,11 +89,8 @@ class TwoEndedLink(link.Link):
         all is well.  Except the access to a private method... but it seems the
         least bad option, IMO.
         """
-        v2 = self.v2
-        self.unlink_from(self.v1)
-        self._vertices = []
-        self.add_vertex(new)
-        self._vertices.append(v2)
+        self.v2  # pylint: disable=pointless-statement  # IndexError if an end is missing
+        self._replace_end(0, new)
 
     @property
     def v2(self) -> Vertex:
@@ -119,10 +116,22 @@ class TwoEndedLink(link.Link):
         For a brief on why this exists, see
         :py:meth:`~edgegraph.structure.TwoEndedLink._set_v1`.
         """
-        v1 = self.v1
-        self.unlink_from(self.v2)
-        self._vertices = [v1]
-        self.add_vertex(new)
+        self.v2  # pylint: disable=pointless-statement  # IndexError if an end is missing
+        self._replace_end(1, new)
+
+    def _replace_end(self, idx: int, new: Vertex):
+        """
+        Replace the vertex at position ``idx`` of this link in place.
+
+        The previous vertex is detached only if it is no longer listed in this
+        link; the new vertex is attached only if it is not attached yet.
+        """
+        old = self._vertices[idx]
+        self._vertices[idx] = new
+        if (old is not None) and not any(v is old for v in self._vertices):
+            old.remove_from_link(self)
+        if (new is not None) and (self not in new.links):
+            new.add_to_link(self)
 
     def other(self, end: Vertex) -> Vertex | None:
         """
